@@ -59,6 +59,7 @@ func checkC09(ctx *Ctx, r *Report) {
 	c09PythonUnionCollectionBranches(ctx, r)
 	c16ThirdHunt(ctx, r)
 	c09FifthHunt(ctx, r)
+	c09SixthHunt(ctx, r)
 	c08UnionReuseComparesBranches(ctx, r)
 }
 
@@ -1903,7 +1904,7 @@ func c09PythonMethodNamesSpareModules(ctx *Ctx, r *Report) int {
 		case *ast.CallExpr:
 			// handed to a function of the jenny that reads ReferredPkg
 			f := callee(info, x)
-			if f == nil || f.Pkg() != p.Types || f == fn {
+			if f == nil || f.Pkg() == nil || !strings.HasPrefix(f.Pkg().Path(), modulePath+"/") || f == fn {
 				return true
 			}
 			for _, a := range x.Args {
@@ -1943,4 +1944,189 @@ func c09PythonMethodNamesSpareModules(ctx *Ctx, r *Report) int {
 	r.Check(fromRun == "", "kinds/python-method-names-spare-modules", "python.Builder spares the names of its own imports only", gfd.Pos(), "the set is not filled from the packages of the run",
 		"the set of names the methods have to spare is filled from context.Schemas ("+fromRun+"): an unrelated input of package `title` renames the option `title` of every other package to `title_val` — Dashboard().title('x') raises AttributeError, while adding an input that nothing references must change no file of the other packages")
 	return 3
+}
+
+// c09SixthHunt — fifth hunt:
+//   - Python: the second argument of isinstance() is a class at run time. formatRuntimeClass follows a *reference* down
+//     to such a class before it picks one: `Alias: Inner` is declared `typing.TypeAlias = 'Inner'` (a string), a named
+//     list is `list[str]` (a parameterized generic) — isinstance raised TypeError on every valid call;
+//   - Go: the packages a builder file imports are known under their name; the jenny formats argument names with a
+//     function that knows the packages the builder refers to (`Other(other []cog.Builder[other.Thing])` wrote
+//     `make([]other.Thing, …)` — other.Thing is not a type);
+//   - Go: the multipleOf check of an integer is computed on the integer (`%`), math.Mod through float64 is kept for
+//     floats: 2^53+1 is not exact as a float64.
+func c09SixthHunt(ctx *Ctx, r *Report) {
+	n := 0
+	// (a)
+	if pp := ctx.Pkg("internal/jennies/python"); pp == nil {
+		r.Undecided("anchor lost: internal/jennies/python")
+	} else {
+		info := pp.TypesInfo
+		found, follows := false, false
+		for _, file := range pp.Syntax {
+			ast.Inspect(file, func(m ast.Node) bool {
+				kv, ok := m.(*ast.KeyValueExpr)
+				if !ok {
+					return true
+				}
+				if bl, ok := kv.Key.(*ast.BasicLit); !ok || bl.Value != `"formatRuntimeClass"` {
+					return true
+				}
+				fl, ok := kv.Value.(*ast.FuncLit)
+				if !ok {
+					return true
+				}
+				found = true
+				// a loop (or a helper) that looks the referred object up while the type is a reference
+				ast.Inspect(fl.Body, func(k ast.Node) bool {
+					if fs, ok := k.(*ast.ForStmt); ok {
+						locates := false
+						ast.Inspect(fs, func(q ast.Node) bool {
+							if c, ok := q.(*ast.CallExpr); ok {
+								if f := callee(info, c); f != nil && (strings.HasPrefix(f.Name(), "LocateObject") || strings.HasPrefix(f.Name(), "Resolve")) {
+									locates = true
+								}
+							}
+							return true
+						})
+						if locates && strings.Contains(exprString(fs.Cond), "IsRef") {
+							follows = true
+						}
+					}
+					if c, ok := k.(*ast.CallExpr); ok {
+						if f := callee(info, c); f != nil && f.Name() == "ResolveRefs" {
+							follows = true
+						}
+					}
+					return true
+				})
+				return true
+			})
+		}
+		if !found {
+			r.Undecided("anchor lost: python template helper formatRuntimeClass")
+		} else {
+			n++
+			r.Check(follows, "skeleton/python-isinstance-class", "python formatRuntimeClass follows references", token.NoPos, "a reference is followed down to what is a class at run time",
+				"formatRuntimeClass formats a reference as it is: `Alias: Inner` is `typing.TypeAlias = 'Inner'` and `#Names: [...string]` is `list[str]` — `isinstance(u1_resource, demo.Alias)` raises TypeError: isinstance() arg 2 must be a type, on every valid call of the option")
+		}
+	}
+	// (b)
+	if fn := ctx.LookupMethod("internal/jennies/golang", "Builder", "generateBuilder"); fn == nil {
+		r.Undecided("anchor lost: golang.Builder.generateBuilder")
+	} else if fd, p := ctx.DeclOf(fn); fd != nil {
+		info := p.TypesInfo
+		// maps filled (directly or through a second map) by a function that reads ReferredPkg
+		fromReferences := map[types.Object]bool{}
+		ast.Inspect(fd.Body, func(m ast.Node) bool {
+			c, ok := m.(*ast.CallExpr)
+			if !ok {
+				return true
+			}
+			f := callee(info, c)
+			if f == nil || f.Pkg() == nil || !strings.HasPrefix(f.Pkg().Path(), modulePath+"/") {
+				return true
+			}
+			hfd, _ := ctx.DeclOf(f)
+			if hfd == nil || hfd.Body == nil {
+				return true
+			}
+			reads := false
+			ast.Inspect(hfd.Body, func(k ast.Node) bool {
+				if sel, ok := k.(*ast.SelectorExpr); ok && sel.Sel.Name == "ReferredPkg" {
+					reads = true
+				}
+				return true
+			})
+			if !reads {
+				return true
+			}
+			for _, a := range c.Args {
+				if id, ok := ast.Unparen(a).(*ast.Ident); ok {
+					if _, isMap := info.TypeOf(id).Underlying().(*types.Map); isMap {
+						fromReferences[objOf(info, id)] = true
+					}
+				}
+			}
+			return true
+		})
+		// one more hop: `for pkg := range referred { imported[f(pkg)] = … }`
+		ast.Inspect(fd.Body, func(m ast.Node) bool {
+			rs, ok := m.(*ast.RangeStmt)
+			if !ok {
+				return true
+			}
+			id, ok := ast.Unparen(rs.X).(*ast.Ident)
+			if !ok || !fromReferences[objOf(info, id)] {
+				return true
+			}
+			ast.Inspect(rs.Body, func(k ast.Node) bool {
+				if as, ok := k.(*ast.AssignStmt); ok && len(as.Lhs) == 1 {
+					if ix, ok := ast.Unparen(as.Lhs[0]).(*ast.IndexExpr); ok {
+						if mid, ok := ast.Unparen(ix.X).(*ast.Ident); ok {
+							fromReferences[objOf(info, mid)] = true
+						}
+					}
+				}
+				return true
+			})
+			return true
+		})
+		knows := false
+		ast.Inspect(fd.Body, func(m ast.Node) bool {
+			kv, ok := m.(*ast.KeyValueExpr)
+			if !ok {
+				return true
+			}
+			if bl, ok := kv.Key.(*ast.BasicLit); !ok || bl.Value != `"formatArgName"` {
+				return true
+			}
+			ast.Inspect(kv.Value, func(k ast.Node) bool {
+				if id, ok := k.(*ast.Ident); ok && fromReferences[objOf(info, id)] {
+					knows = true
+				}
+				return true
+			})
+			return true
+		})
+		n++
+		r.Check(knows, "kinds/go-argument-names-spare-packages", "golang.Builder.generateBuilder formats argument names", fd.Pos(), "with a function that knows the packages the builder refers to",
+			"the Go builder templates name arguments with the global formatArgName, which only knows `cog`: `Obj: {other?: [...oth.Thing]}` gives `Other(other []cog.Builder[other.Thing])` whose body says `make([]other.Thing, 0, len(other))` — other.Thing is not a type, the package does not compile")
+	}
+	// (c)
+	ts, err := loadTemplates(ctx, "golang")
+	if err != nil {
+		r.Undecided("cannot parse golang templates: %v", err)
+	} else if tree := ts.trees["type_constraints"]; tree == nil {
+		r.Undecided("anchor lost: golang template type_constraints")
+	} else {
+		integerRemainder := false
+		walkTmpl(tree.Root, func(m parse.Node) bool {
+			in, ok := m.(*parse.IfNode)
+			if !ok || !strings.Contains(in.Pipe.String(), "multipleOf") {
+				return true
+			}
+			// inside the multipleOf branch: a test on the kind of the scalar, and a `%` in one of its arms
+			walkTmpl(in.List, func(k parse.Node) bool {
+				inner, ok := k.(*parse.IfNode)
+				if !ok || !strings.Contains(inner.Pipe.String(), "float") {
+					return true
+				}
+				arms := tmplText(inner.List)
+				if inner.ElseList != nil {
+					arms += tmplText(inner.ElseList)
+				}
+				if strings.Contains(arms, " % ") && strings.Contains(arms, "math.Mod") {
+					integerRemainder = true
+				}
+				return true
+			})
+			return true
+		})
+		n++
+		r.Check(integerRemainder, "skeleton/go-integer-multiple-of", "golang type_constraints checks multipleOf", token.NoPos, "with `%` for integers and math.Mod for floats, told apart by the kind of the scalar",
+			ts.file["type_constraints"]+": multipleOf is always checked with math.Mod(float64(x), float64(n)): for `even: {type: integer, multipleOf: 2}` the odd 9007199254740993 (2^53+1) is accepted by Build() and, with multipleOf 3, refused although it is 3 × 3002399751580331 — the Python check (`% 3 == 0`) is exact")
+	}
+	r.Count("hunted clauses of the builders (6th hunt)", n)
+	r.Floor("hunted clauses of the builders (6th hunt)", 3)
 }
